@@ -51,8 +51,10 @@ def run(pkg_path, harnesses, max_paths=20000, timeout_ms=60000, max_instrs=50000
     """Run gosym on harness functions of one package. Returns list of dict(result=..., wall_s=..)."""
     ensure_built()
     w = build.workdir()
-    ov = os.path.join(w, 'overlay_%d.json' % os.getpid())
-    json.dump(overlay_map(), open(ov, 'w'))
+    import threading
+    ov = os.path.join(w, 'overlay_%d_%d.json' % (os.getpid(), threading.get_ident()))
+    with open(ov, 'w') as fh:
+        json.dump(overlay_map(), fh)
     env = dict(os.environ, GOFLAGS='-mod=mod', GOPROXY='off', GOTOOLCHAIN='local', PATH=GO126 + ':' + os.environ['PATH'])
     env.pop('GOSUMDB', None)
     from . import runner as _r
@@ -140,6 +142,8 @@ def replay(pkg_path, pkg_rel, harness, model):
     r = subprocess.run(['go', 'test', '-v', '-vet=off', '-count=1', '-overlay', ovf, '-run', 'TestZZVerifReplay', './' + host_rel],
                        cwd=build.REPO, env=env, capture_output=True, text=True, timeout=600)
     out = r.stdout + r.stderr
+    if os.environ.get('VERIF_REPLAY_RAW'):
+        return {'kind': 'raw', 'detail': out}
     if 'VERIF-REPLAY: ok' in out:
         return {'kind': 'ok'}
     m = re.search(r'VERIF-REPLAY: assertion failed: (.*)', out)
